@@ -15,6 +15,7 @@
 -/
 import Jb.Proofs.Hts
 import Jb.Proofs.HtsBound
+import Jb.Proofs.ParseShape
 
 set_option linter.unusedSectionVars false
 
@@ -61,5 +62,39 @@ theorem windows_bounded_by_file (bytes : List Nat) (v : ParsedVoice) (h : parseV
     (s : ParsedStream) (hs : s ∈ v.streams) :
     s.windows.length ≤ bytes.length ∧ ∀ w ∈ s.windows, w.length ≤ bytes.length :=
   windows_le_size bytes v h s hs
+
+/-- **what acceptance guarantees** (`Jb/Proofs/ParseShape.lean`): a voice the guarded reader returns has one parsed stream
+    per announced stream (at least one); every PDF of the duration model has `NUM_STATES` means and variances; every PDF
+    of a stream model has `VECTOR_LENGTH × NUM_WINDOWS` means and variances and a voicing weight iff the stream is MSD;
+    a stream has a GV model iff `USE_GV`, with `VECTOR_LENGTH` entries per PDF; every model has one PDF list per tree and
+    every reference / question name of every tree resolves — so none of the `unwrap`s of `convert_tree` and none of the
+    `from_linear` index computations can fail on an accepted file. -/
+theorem accepted_voice_shape (bytes : List Nat) (v : ParsedVoice) (h : parseVoice true bytes = .ok v) :
+    (v.streams.length = v.global.nstreams ∧ 0 < v.streams.length) ∧
+    ((∀ ps ∈ v.duration.pdfs, ∀ p ∈ ps,
+        p.means.length = v.global.nstates ∧ p.varis.length = v.global.nstates ∧ p.msd = none) ∧
+      v.duration.pdfs.length = v.duration.trees.length ∧
+      ∀ t ∈ v.duration.trees, ∃ r, convertTree true v.duration.questions t = .ok r) ∧
+    (∀ s ∈ v.streams,
+      (∀ ps ∈ s.model.pdfs, ∀ p ∈ ps,
+        p.means.length = s.info.veclen * s.info.nwin ∧ p.varis.length = s.info.veclen * s.info.nwin ∧
+        p.msd.isSome = s.info.isMsd) ∧
+      s.model.pdfs.length = s.model.trees.length ∧
+      ∀ t ∈ s.model.trees, ∃ r, convertTree true s.model.questions t = .ok r) ∧
+    (∀ s ∈ v.streams,
+      (s.info.useGv = true → ∃ g, s.gv = some g ∧
+        (∀ ps ∈ g.pdfs, ∀ p ∈ ps,
+          p.means.length = s.info.veclen ∧ p.varis.length = s.info.veclen ∧ p.msd = none) ∧
+        g.pdfs.length = g.trees.length ∧
+        ∀ t ∈ g.trees, ∃ r, convertTree true g.questions t = .ok r) ∧
+      (s.info.useGv = false → s.gv = none)) :=
+  parseVoice_shape bytes v h
+
+/-- the hypothesis is satisfiable — and acceptance is *not* well-formedness: one complete file image the reader accepts
+    (checked by kernel evaluation) announces three windows and lists one, has a leaf whose PDF id exceeds the PDF count,
+    a cyclic tree, a tree without rows and a tree for a state the voice does not have. None of this is a crash of the
+    loader (C18 holds); it is why C01 quantifies over *supported* voices (`Synth.VoicesWF`). -/
+theorem accepted_is_not_wellformed :
+    parseVoice true ParseShapeEx.exBytes = .ok ParseShapeEx.exVoice := ParseShapeEx.ex_accepted
 
 end Jb.C18
